@@ -77,6 +77,9 @@ def family_fids(F):
 
 
 def check(ctx, F):
+    # every orthogonal sibling receives the phase on every path (the reaction phases may stop at a consumed event): rule instances shared with C01
+    from . import C01, C03
+    C01.check_ortho_all(C03._Alias(ctx, {"C01.ortho-all": "C05.region-order"}), F)
     fam = family_fids(F)
     paths = {}
     for fid in fam:
